@@ -9,6 +9,17 @@ package referenceclient
 // raw definition instead: verb, path, query parameters, every listed header
 // with its values in order, exactly the specified body.
 //
+// Timing axis ("when does the server answer"): every server runs in one of two
+// modes per case.  late = read the whole request body, then answer (what a unary
+// / half-duplex handler does).  EARLY = send and flush the response headers
+// first (HTTP/1.1: full duplex enabled), wait until the client's RoundTrip has
+// returned (a channel closed by the test - no clock involved), and only then
+// read the request body.  RoundTrip returning means "response headers
+// received", not "request body sent": the body as specified must still arrive
+// completely.  Bodies: the ordinary alphabet and large ones (64 KiB, 1 MiB,
+// 4 MiB, 16 MiB: beyond the HTTP/2 flow-control window and the loopback socket
+// buffers, so that part of the body is certainly still unsent at that moment).
+//
 // Stream items without payload are not part of this unit's alphabet: the
 // encoders dereference the nil payload (see unit c17-body) inside a goroutine
 // started by RoundTrip, which would kill the test process instead of producing
@@ -17,8 +28,11 @@ package referenceclient
 import (
 	"bytes"
 	"context"
+	"crypto/sha256"
 	"crypto/tls"
 	"encoding/base64"
+	"encoding/binary"
+	"encoding/hex"
 	"encoding/json"
 	"fmt"
 	"io"
@@ -30,6 +44,7 @@ import (
 	"sort"
 	"strconv"
 	"strings"
+	"sync/atomic"
 	"testing"
 	"time"
 
@@ -43,7 +58,69 @@ import (
 
 type c17qCase struct {
 	Proto string          `json:"proto"`
-	Raw   json.RawMessage `json:"raw"` // protojson RawHTTPRequest
+	Early bool            `json:"server_answers_early,omitempty"` // the server flushes its response headers, waits until RoundTrip has returned, then reads the body
+	Big   *c17qBig        `json:"big_body,omitempty"`             // the body is generated (c17qBigBody) instead of being spelled out in Raw
+	Raw   json.RawMessage `json:"raw"`                            // protojson RawHTTPRequest (without body when Big is set)
+}
+
+// c17qBig describes a large identity body: one binary message of Sizes[0]
+// bytes (shape "unary") or a stream of len(Sizes) items with binary payloads of
+// those sizes, computed lengths and flags 0,1,2,... (shape "stream").  The
+// payload bytes are a fixed function of (item index, offset).
+type c17qBig struct {
+	Shape string `json:"shape"`
+	Sizes []int  `json:"sizes"`
+}
+
+func c17qBigPayload(item, n int) []byte {
+	out := make([]byte, n)
+	for i := range out {
+		out[i] = byte(i*13 + i/253 + i/65521 + item*101 + 7)
+	}
+	return out
+}
+
+func c17qBigFlags(item int) uint32 { return uint32(item % 3) }
+
+// c17qBigBody puts the body described by big into raw.
+func c17qBigBody(raw *conformancev1.RawHTTPRequest, big *c17qBig) {
+	if big.Shape == "unary" {
+		raw.Body = &conformancev1.RawHTTPRequest_Unary{Unary: &conformancev1.MessageContents{
+			Data: &conformancev1.MessageContents_Binary{Binary: c17qBigPayload(0, big.Sizes[0])},
+		}}
+		return
+	}
+	sc := &conformancev1.StreamContents{}
+	for i, n := range big.Sizes {
+		sc.Items = append(sc.Items, &conformancev1.StreamContents_StreamItem{
+			Flags:   c17qBigFlags(i),
+			Payload: &conformancev1.MessageContents{Data: &conformancev1.MessageContents_Binary{Binary: c17qBigPayload(i, n)}},
+		})
+	}
+	raw.Body = &conformancev1.RawHTTPRequest_Stream{Stream: sc}
+}
+
+// c17qBigWant: length and SHA-256 of the bytes the definition prescribes,
+// computed here from the proto comments (item = flags byte, big-endian length,
+// payload; uncompressed), without any encoder of the repository.
+func c17qBigWant(big *c17qBig) (int64, string) {
+	h := sha256.New()
+	var n int64
+	for i, size := range big.Sizes {
+		if big.Shape == "stream" {
+			var prefix [5]byte
+			prefix[0] = byte(c17qBigFlags(i))
+			binary.BigEndian.PutUint32(prefix[1:], uint32(size))
+			h.Write(prefix[:])
+			n += 5
+		}
+		h.Write(c17qBigPayload(i, size))
+		n += int64(size)
+		if big.Shape == "unary" {
+			break
+		}
+	}
+	return n, hex.EncodeToString(h.Sum(nil))
 }
 
 type c17qSeen struct {
@@ -53,9 +130,29 @@ type c17qSeen struct {
 	Escaped    string      `json:"escaped_path"` // http.Request.URL.EscapedPath(): the path as it was written in the request target
 	RawQuery   string      `json:"raw_query"`
 	Header     http.Header `json:"header"`
-	Body       []byte      `json:"body"`
+	Body       []byte      `json:"body"` // the first c17qKeep bytes
+	BodyLen    int64       `json:"body_len"`
+	BodySHA    string      `json:"body_sha256"`
 	BodyErr    string      `json:"body_err,omitempty"`
 	Proto      string      `json:"proto"`
+	Early      bool        `json:"answered_before_reading,omitempty"`
+	GateErr    string      `json:"gate_err,omitempty"` // early mode: the request was given up before the test opened the gate
+}
+
+// c17qKeep: how much of a request body the recording server keeps verbatim (the
+// rest is only counted and hashed).
+const c17qKeep = 2 << 20
+
+type c17qKeeper struct{ buf []byte }
+
+func (k *c17qKeeper) Write(p []byte) (int, error) {
+	if room := c17qKeep - len(k.buf); room > 0 {
+		if room > len(p) {
+			room = len(p)
+		}
+		k.buf = append(k.buf, p[:room]...)
+	}
+	return len(p), nil
 }
 
 type c17qServer struct {
@@ -64,6 +161,7 @@ type c17qServer struct {
 	transport http.RoundTripper
 	seen      chan c17qSeen
 	stop      func()
+	gate      atomic.Pointer[chan struct{}] // non-nil: EARLY mode - answer first, read the body when this channel is closed
 }
 
 const (
@@ -77,8 +175,24 @@ func c17qStart() map[string]*c17qServer {
 	mk := func(name string) (*c17qServer, http.Handler) {
 		s := &c17qServer{name: name, seen: make(chan c17qSeen, 64)}
 		return s, http.HandlerFunc(func(w http.ResponseWriter, r *http.Request) {
-			body, err := io.ReadAll(r.Body)
-			rec := c17qSeen{Method: r.Method, RequestURI: r.RequestURI, Path: r.URL.Path, Escaped: r.URL.EscapedPath(), RawQuery: r.URL.RawQuery, Header: r.Header.Clone(), Body: body, Proto: r.Proto}
+			rec := c17qSeen{Method: r.Method, RequestURI: r.RequestURI, Path: r.URL.Path, Escaped: r.URL.EscapedPath(), RawQuery: r.URL.RawQuery, Header: r.Header.Clone(), Proto: r.Proto}
+			w.Header().Set("Content-Type", "text/plain")
+			if gate := s.gate.Load(); gate != nil {
+				// EARLY: the response headers leave before a single body byte was read
+				rec.Early = true
+				rc := http.NewResponseController(w)
+				_ = rc.EnableFullDuplex() // HTTP/1.1: allow reading the request after the response has started (HTTP/2 always can)
+				w.WriteHeader(http.StatusOK)
+				_ = rc.Flush()
+				select {
+				case <-*gate:
+				case <-r.Context().Done():
+					rec.GateErr = "request context done before the client's RoundTrip returned: " + r.Context().Err().Error()
+				}
+			}
+			keep, hash := &c17qKeeper{}, sha256.New()
+			n, err := io.Copy(io.MultiWriter(keep, hash), r.Body)
+			rec.Body, rec.BodyLen, rec.BodySHA = keep.buf, n, hex.EncodeToString(hash.Sum(nil))
 			if err != nil {
 				rec.BodyErr = err.Error()
 			}
@@ -86,7 +200,6 @@ func c17qStart() map[string]*c17qServer {
 			case s.seen <- rec:
 			default:
 			}
-			w.Header().Set("Content-Type", "text/plain")
 			_, _ = w.Write([]byte("ok"))
 		})
 	}
@@ -132,10 +245,29 @@ type c17qObs struct {
 	Seen         *c17qSeen `json:"seen"`
 }
 
-func c17qRun(srv *c17qServer, raw *conformancev1.RawHTTPRequest) (obs c17qObs) {
+func c17qRun(srv *c17qServer, raw *conformancev1.RawHTTPRequest, early bool) (obs c17qObs) {
 	for len(srv.seen) > 0 { // leftovers of an earlier failed case
 		<-srv.seen
 	}
+	var gate chan struct{}
+	if early {
+		// a fresh connection: what the kernel / the HTTP/2 peer lets the client send ahead of the
+		// reader then does not depend on the cases that used the connection before
+		if c, ok := srv.transport.(interface{ CloseIdleConnections() }); ok {
+			c.CloseIdleConnections()
+		}
+		gate = make(chan struct{})
+		srv.gate.Store(&gate)
+		defer srv.gate.Store(nil)
+	}
+	opened := false
+	open := func() {
+		if gate != nil && !opened {
+			opened = true
+			close(gate)
+		}
+	}
+	defer open()
 	ctx, cancel := context.WithTimeout(context.Background(), 30*time.Second) // liveness guard only
 	defer cancel()
 	orig, err := http.NewRequestWithContext(ctx, http.MethodPost, srv.url+c17qOrigPath+"?orig=1", io.NopCloser(strings.NewReader(c17qOrigBody)))
@@ -156,17 +288,23 @@ func c17qRun(srv *c17qServer, raw *conformancev1.RawHTTPRequest) (obs c17qObs) {
 		}()
 		resp, err = sender.RoundTrip(orig)
 	}()
+	// RoundTrip has returned (= the response headers are here): an EARLY server may read now
+	open()
 	if obs.Panic != "" {
 		return obs
 	}
 	if err != nil {
 		obs.RoundTripErr = err.Error()
 	} else {
-		_, _ = io.Copy(io.Discard, resp.Body)
-		_ = resp.Body.Close()
 		obs.Status = resp.StatusCode
+		// the response body is read (and closed) only after the server has reported what it
+		// received: closing it earlier would itself abort a request that is still being sent
+		defer func() {
+			_, _ = io.Copy(io.Discard, resp.Body)
+			_ = resp.Body.Close()
+		}()
 	}
-	wait := 20 * time.Second
+	wait := 25 * time.Second // liveness guard only
 	if err != nil {
 		// RoundTrip failed: either nothing was sent or the handler has run already; a short
 		// grace period only decides between the keys nothing-arrived and round-trip-error
@@ -190,8 +328,13 @@ func c17qDecodeB64(s string) ([]byte, error) {
 	return base64.RawStdEncoding.DecodeString(t)
 }
 
-func c17qJudge(raw *conformancev1.RawHTTPRequest, obs c17qObs) (out []c17qVerdict) {
+func c17qJudge(raw *conformancev1.RawHTTPRequest, early bool, big *c17qBig, obs c17qObs) (out []c17qVerdict) {
 	add := func(key, format string, a ...any) {
+		if early && strings.HasPrefix(key, "raw-request:body:") {
+			// the same demand, in the situation "the response headers overtook the request body"
+			key = "raw-request:server-answers-early:" + strings.TrimPrefix(key, "raw-request:")
+			format = "[server answered before reading the request body] " + format
+		}
 		out = append(out, c17qVerdict{key, fmt.Sprintf(format, a...)})
 	}
 	if obs.Panic != "" {
@@ -203,6 +346,12 @@ func c17qJudge(raw *conformancev1.RawHTTPRequest, obs c17qObs) (out []c17qVerdic
 		return out
 	}
 	seen := obs.Seen
+	if early && !seen.Early {
+		add("raw-request:harness-early-mode-not-applied", "the recording server did not run in early-answer mode for this case")
+	}
+	if seen.GateErr != "" {
+		add("raw-request:server-answers-early:request-given-up", "the server had sent its response headers and was waiting for RoundTrip to return: %s", seen.GateErr)
+	}
 	if seen.Method != raw.GetVerb() {
 		add("raw-request:method", "server saw method %q, specified %q", seen.Method, raw.GetVerb())
 	}
@@ -321,10 +470,32 @@ func c17qJudge(raw *conformancev1.RawHTTPRequest, obs c17qObs) (out []c17qVerdic
 	}
 	// body
 	if bytes.Contains(seen.Body, []byte(c17qOrigBody)) {
-		add("raw-request:original-body-leaks", "the body of the request the client built reached the server: %q", seen.Body)
+		add("raw-request:original-body-leaks", "the body of the request the client built reached the server: %.200q", seen.Body)
 	}
 	if seen.BodyErr != "" {
-		add("raw-request:body:read-error", "server failed to read the request body: %s (after %d bytes)", seen.BodyErr, len(seen.Body))
+		add("raw-request:body:read-error", "server failed to read the request body: %s (after %d bytes)", seen.BodyErr, seen.BodyLen)
+	}
+	if big != nil {
+		// large generated body: exactly the prescribed bytes (length and SHA-256 computed independently)
+		wantLen, wantSHA := c17qBigWant(big)
+		switch {
+		case seen.BodyLen < wantLen:
+			add("raw-request:body:cut-short", "the definition prescribes a body of %d bytes (%s, payload sizes %v); the server received only %d bytes (read error %q)", wantLen, big.Shape, big.Sizes, seen.BodyLen, seen.BodyErr)
+		case seen.BodyLen > wantLen:
+			add("raw-request:body:unexpected-bytes", "the definition prescribes a body of %d bytes (%s, payload sizes %v); the server received %d bytes", wantLen, big.Shape, big.Sizes, seen.BodyLen)
+		case seen.BodySHA != wantSHA:
+			add("raw-request:body:wrong-bytes", "body of %d bytes (%s, payload sizes %v): SHA-256 %s received, %s prescribed", wantLen, big.Shape, big.Sizes, seen.BodySHA, wantSHA)
+		}
+	}
+	if seen.BodyLen > int64(len(seen.Body)) {
+		// longer than what the server keeps verbatim: judged by length and hash above
+		if big == nil {
+			add("raw-request:body:unexpected-bytes", "server read %d bytes, far more than any definition of the alphabet prescribes", seen.BodyLen)
+		}
+		if len(out) == 0 && obs.RoundTripErr != "" {
+			add("raw-request:round-trip-error", "the request arrived as specified but RoundTrip returned %q", obs.RoundTripErr)
+		}
+		return out
 	}
 	switch b := raw.GetBody().(type) {
 	case nil:
@@ -457,7 +628,30 @@ func c17qIdentityLen(b c17lib.Body) int {
 	return -1
 }
 
-func c17qEnumerate(thorough bool, visit func(grid, proto string, raw *conformancev1.RawHTTPRequest) bool) {
+// c17qBigs: large identity bodies around 64 KiB, 1 MiB, 4 MiB and 16 MiB as one
+// message, as a stream of one item and as a stream of several items.
+func c17qBigs(thorough bool) []*c17qBig {
+	const K, M = 1 << 10, 1 << 20
+	out := []*c17qBig{
+		{"unary", []int{64 * K}}, {"stream", []int{64*K - 5}}, {"stream", []int{16 * K, 32 * K, 16*K + 1}},
+		{"unary", []int{M}}, {"stream", []int{M}}, {"stream", []int{256 * K, 512 * K, 256 * K, 3}},
+		{"unary", []int{4 * M}}, {"stream", []int{4 * M}}, {"stream", []int{M, M + 1, M, M - 1}},
+		{"unary", []int{16 * M}}, {"stream", []int{16 * M}}, {"stream", []int{4 * M, 4 * M, 4*M + 7, 4 * M}},
+	}
+	if thorough {
+		out = append(out,
+			&c17qBig{"unary", []int{64*K + 1}}, &c17qBig{"stream", []int{64 * K}}, &c17qBig{"unary", []int{65535}},
+			&c17qBig{"stream", []int{M - 5}}, &c17qBig{"unary", []int{M + 1}},
+			&c17qBig{"stream", []int{2 * M, 0, 2 * M}}, &c17qBig{"stream", []int{M, M, M, M, M, M, M, M}},
+		)
+	}
+	return out
+}
+
+func c17qEnumerate(thorough bool, visit0 func(grid, proto string, early bool, big *c17qBig, raw *conformancev1.RawHTTPRequest) bool) {
+	visit := func(grid, proto string, raw *conformancev1.RawHTTPRequest) bool {
+		return visit0(grid, proto, false, nil, raw)
+	}
 	hl := c17lib.HeaderLists(1)
 	helloBody := c17lib.Body{Unary: c17lib.Payloads(0)[0]}
 	// grid U: verb x URI x raw query params x encoded query params
@@ -512,6 +706,39 @@ func c17qEnumerate(thorough bool, visit func(grid, proto string, raw *conformanc
 			}
 		}
 	}
+	// grid T (timing axis): the server answers EARLY - response headers first, the request body is
+	// read only after RoundTrip has returned - x the medium body set x header lists
+	tHeaders := [][]*conformancev1.Header{hl[2]}
+	tVerbs := []string{"POST"}
+	if thorough {
+		tHeaders = [][]*conformancev1.Header{nil, hl[2], hl[4]}
+		tVerbs = []string{"POST", "PUT"}
+	}
+	for _, verb := range tVerbs {
+		for _, hs := range tHeaders {
+			for _, b := range bodies {
+				raw := c17qMake(verb, c17qURIs[0], c17qRawQueryLists()[1], nil, hs, b)
+				for _, p := range c17qProtos {
+					if !visit0("T", p, true, nil, raw) {
+						return
+					}
+				}
+			}
+		}
+	}
+	// grid G: large bodies (beyond the HTTP/2 flow-control window and the loopback socket buffers)
+	// x server answers late / early
+	for _, big := range c17qBigs(thorough) {
+		for _, early := range []bool{false, true} {
+			hs := []*conformancev1.Header{c17lib.H("Content-Type", "application/x-raw"), c17lib.H("X-Raw-A", "a1")}
+			raw := c17qMake("POST", c17qURIs[0], nil, nil, hs, c17lib.Body{})
+			for _, p := range c17qProtos {
+				if !visit0("G", p, early, big, raw) {
+					return
+				}
+			}
+		}
+	}
 	// grid B (thorough): full body alphabet
 	if thorough {
 		for _, b := range c17lib.Bodies(2) {
@@ -529,10 +756,20 @@ func c17qEnumerate(thorough bool, visit func(grid, proto string, raw *conformanc
 	}
 }
 
+// c17qShort: the definition for messages, with a large body left out.
+func c17qShort(raw *conformancev1.RawHTTPRequest) string {
+	if proto.Size(raw) > 4096 {
+		raw = proto.Clone(raw).(*conformancev1.RawHTTPRequest)
+		raw.Body = nil
+		return c17lib.Short(raw) + " (+ large generated body)"
+	}
+	return c17lib.Short(raw)
+}
+
 func TestVerifC17RawRequest(t *testing.T) {
 	r := rep.New("c17-rawreq")
 	defer r.Write()
-	r.Rule = "case = (protocol h1|h2tls|h2c) x RawHTTPRequest; grid U = verb{POST,GET,PUT} x 10 URIs (thorough 15: plain, root, escaped space, with own query, paths with %2F / %3F / %23 / %25 without and with an own query string; the escaped path the server receives - request target and URL.EscapedPath() - must be the one specified) x 4 raw query lists x encoded query lists (text/binary/binary_message, compressed, +-base64, repeated name, unset value; thorough: 7 payloads x 7 compressions x +-base64); grid H = verb x header lists (0-3 headers, 1-2 values, a name in two entries - same spelling or differing in case - whose values must all arrive in list order, Content-Type, correct Content-Length) x medium body set; grid B (thorough) = full body alphabet x 2 verbs x 2 header lists; distinct (proto, definition) = non-trivial; oracle = what a recording net/http server received vs. the definition (independent body decoder), nothing of the original request"
+	r.Rule = "case = (protocol h1|h2tls|h2c) x RawHTTPRequest; grid U = verb{POST,GET,PUT} x 10 URIs (thorough 15: plain, root, escaped space, with own query, paths with %2F / %3F / %23 / %25 without and with an own query string; the escaped path the server receives - request target and URL.EscapedPath() - must be the one specified) x 4 raw query lists x encoded query lists (text/binary/binary_message, compressed, +-base64, repeated name, unset value; thorough: 7 payloads x 7 compressions x +-base64); grid H = verb x header lists (0-3 headers, 1-2 values, a name in two entries - same spelling or differing in case - whose values must all arrive in list order, Content-Type, correct Content-Length) x medium body set; grid T (timing axis) = the recording server answers EARLY (flushes its response headers, HTTP/1.1 in full-duplex mode, waits on a channel the test closes when RoundTrip has returned, only then reads the request body) x medium body set x header lists; grid G = large generated identity bodies (64 KiB, 1 MiB, 4 MiB, 16 MiB - beyond the HTTP/2 flow-control window and the loopback socket buffers - as one message, one stream item, several stream items) x server answers late | early, on a fresh connection: the server must receive exactly the prescribed bytes (length + SHA-256 computed independently; bodies up to 2 MiB also through the independent decoder); grid B (thorough) = full body alphabet x 2 verbs x 2 header lists; distinct (proto, early, definition) = non-trivial; oracle = what a recording net/http server received vs. the definition (independent body decoder), nothing of the original request"
 
 	servers := c17qStart()
 	defer func() {
@@ -544,16 +781,20 @@ func TestVerifC17RawRequest(t *testing.T) {
 		}
 	}()
 
-	evalOne := func(protoName string, raw *conformancev1.RawHTTPRequest, verbose bool) []c17qVerdict {
+	evalOne := func(protoName string, early bool, big *c17qBig, raw *conformancev1.RawHTTPRequest, verbose bool) []c17qVerdict {
 		srv := servers[protoName]
-		obs := c17qRun(srv, raw)
-		verdicts := c17qJudge(raw, obs)
+		if big != nil {
+			raw = proto.Clone(raw).(*conformancev1.RawHTTPRequest)
+			c17qBigBody(raw, big)
+		}
+		obs := c17qRun(srv, raw, early)
+		verdicts := c17qJudge(raw, early, big, obs)
 		if len(verdicts) > 0 {
 			// alarm discipline: run a failing case once more on fresh connections
 			if c, ok := srv.transport.(interface{ CloseIdleConnections() }); ok {
 				c.CloseIdleConnections()
 			}
-			again := c17qJudge(raw, c17qRun(srv, raw))
+			again := c17qJudge(raw, early, big, c17qRun(srv, raw, early))
 			keys := map[string]bool{}
 			for _, v := range again {
 				keys[v.key] = true
@@ -563,7 +804,7 @@ func TestVerifC17RawRequest(t *testing.T) {
 				if keys[v.key] {
 					kept = append(kept, v)
 				} else {
-					r.Note("UNSTABLE verdict %s on proto=%s raw=%s: %s", v.key, protoName, c17lib.Short(raw), v.detail)
+					r.Note("UNSTABLE verdict %s on proto=%s early=%v raw=%s: %s", v.key, protoName, early, c17qShort(raw), v.detail)
 					r.Count("unstable", 1)
 				}
 			}
@@ -585,14 +826,31 @@ func TestVerifC17RawRequest(t *testing.T) {
 				q = "query"
 			}
 			n := "empty"
-			if len(obs.Seen.Body) > 0 {
+			switch {
+			case obs.Seen.BodyLen >= 4<<20:
+				n = "4MiB+"
+			case obs.Seen.BodyLen >= 1<<20:
+				n = "1MiB+"
+			case obs.Seen.BodyLen >= 60<<10:
+				n = "60KiB+"
+			case obs.Seen.BodyLen > 0:
 				n = "bytes"
 			}
 			cls = fmt.Sprintf("%s/%s/%s/%s-%s/hdrs%d", obs.Seen.Proto, obs.Seen.Method, q, bodyKind, n, len(raw.GetHeaders()))
+			if obs.Seen.Early {
+				cls += "/server-answered-before-reading"
+			}
 		}
 		r.Outcome(cls)
 		if verbose {
-			fmt.Printf("replay: proto=%s raw=%s\nobserved: panic=%q err=%q status=%d\nseen=%+v\nverdicts=%v\n", protoName, c17lib.JSON(raw), obs.Panic, obs.RoundTripErr, obs.Status, obs.Seen, verdicts)
+			seen := c17qSeen{}
+			if obs.Seen != nil {
+				seen = *obs.Seen
+				if len(seen.Body) > 256 {
+					seen.Body = seen.Body[:256]
+				}
+			}
+			fmt.Printf("replay: proto=%s early=%v big=%+v raw=%s\nobserved: panic=%q err=%q status=%d\nseen(first 256 body bytes)=%+v\nverdicts=%v\n", protoName, early, big, c17qShort(raw), obs.Panic, obs.RoundTripErr, obs.Status, seen, verdicts)
 		}
 		return verdicts
 	}
@@ -612,7 +870,7 @@ func TestVerifC17RawRequest(t *testing.T) {
 		r.NonTrivial("")
 		r.NonTrivial("")
 		r.Sample(rj.Replay)
-		for _, v := range evalOne(rj.Replay.Proto, raw, true) {
+		for _, v := range evalOne(rj.Replay.Proto, rj.Replay.Early, rj.Replay.Big, raw, true) {
 			r.Violate(v.key, v.detail, rj.Replay)
 		}
 		return
@@ -620,7 +878,7 @@ func TestVerifC17RawRequest(t *testing.T) {
 
 	deadline := rep.Deadline()
 	var k int64
-	c17qEnumerate(rep.Thorough(), func(grid, protoName string, raw *conformancev1.RawHTTPRequest) bool {
+	c17qEnumerate(rep.Thorough(), func(grid, protoName string, early bool, big *c17qBig, raw *conformancev1.RawHTTPRequest) bool {
 		k++
 		if !r.Mine(k) {
 			return true
@@ -629,16 +887,28 @@ func TestVerifC17RawRequest(t *testing.T) {
 			r.NotExhaustive("budget reached in grid " + grid + " before the enumeration was complete")
 			return false
 		}
-		verdicts := evalOne(protoName, raw, false)
+		verdicts := evalOne(protoName, early, big, raw, false)
 		r.Eval(1)
 		r.Count("grid:"+grid, 1)
-		c := c17qCase{Proto: protoName, Raw: c17lib.JSON(raw)}
-		r.NonTrivial(protoName + "|" + string(c.Raw))
-		if k%499 == 1 {
+		c := c17qCase{Proto: protoName, Early: early, Big: big, Raw: c17lib.JSON(raw)}
+		bigKey, _ := json.Marshal(big)
+		r.NonTrivial(protoName + "|" + strconv.FormatBool(early) + "|" + string(bigKey) + "|" + string(c.Raw))
+		if k%499 == 1 || (grid == "G" && early && big.Sizes[0] == 4<<20) {
 			r.Sample(c)
 		}
+		if len(verdicts) > 0 && (early || big != nil) {
+			name := fmt.Sprintf("cases-with-verdicts:grid-%s:%s:early=%v", grid, protoName, early)
+			if big != nil {
+				total := 0
+				for _, n := range big.Sizes {
+					total += n
+				}
+				name += fmt.Sprintf(":about-%dKiB", total>>10)
+			}
+			r.Count(name, 1)
+		}
 		for _, v := range verdicts {
-			r.Violate(v.key, fmt.Sprintf("proto=%s raw=%s: %s", protoName, c17lib.Short(raw), v.detail), c)
+			r.Violate(v.key, fmt.Sprintf("proto=%s server-answers-early=%v big-body=%s raw=%s: %s", protoName, early, bigKey, c17lib.Short(raw), v.detail), c)
 		}
 		return true
 	})
